@@ -2,6 +2,8 @@
 
 package xmlenc
 
+import "encoding/base64"
+
 // Harness_C10_padding: stripPadding(appendPadding(p, bs)) == p for every p of
 // length n (case-split) and bs in {8,16}.
 func Harness_C10_padding() {
@@ -138,4 +140,59 @@ func Harness_C10_transport() {
 		verifReach("decrypted")
 		verifAssert(verifBytesEqual(out, p), "C10/transport/"+name+"/roundtrip")
 	}
+}
+
+// Harness_C08_fresh: with a random source that may return a short read on any one of its first calls
+// (io.Reader allows that), the content-encryption key the recipient unwraps and the IV in front of the
+// cipher text consist entirely of bytes drawn from the source in this call.
+func Harness_C08_fresh() {
+	var drawn []byte
+	calls := 0
+	RandReader = verifRandReader{&drawn, &calls}
+	e := OAEP()
+	e.BlockCipher = AES128CBC
+	e.DigestMethod = &SHA1
+	p := verifNondetBytes("p", 16)
+	el, err := e.Encrypt(verifTestCert(0, 0), append([]byte{}, p...), nil)
+	if err != nil {
+		return
+	}
+	verifReach("encrypted")
+	keyEl := el.FindElement("./KeyInfo/EncryptedKey")
+	verifAssert(keyEl != nil, "C08/fresh/encrypted-key-present")
+	if keyEl == nil {
+		return
+	}
+	k, kerr := Decrypt(verifTestSigner(0, 0), keyEl)
+	verifAssert(kerr == nil, "C08/fresh/content-key-recoverable")
+	if kerr == nil {
+		verifAssert(len(k) == 16, "C08/fresh/content-key-is-128-bits")
+		verifAssert(verifRun(drawn, k), "C08/fresh/content-key-is-drawn-from-the-random-source")
+	}
+	cv := el.FindElement("./CipherData/CipherValue")
+	verifAssert(cv != nil, "C08/fresh/cipher-value-present")
+	if cv == nil {
+		return
+	}
+	raw, berr := base64.StdEncoding.DecodeString(cv.Text())
+	verifAssert(berr == nil && len(raw) >= 32, "C08/fresh/cipher-value-has-iv-and-blocks")
+	if berr == nil && len(raw) >= 32 {
+		verifAssert(verifRun(drawn, raw[:16]), "C08/fresh/iv-is-drawn-from-the-random-source")
+	}
+}
+
+// verifRun: needle occurs as a contiguous run in hay (both short).
+func verifRun(hay, needle []byte) bool {
+	if len(needle) == 0 || len(needle) > len(hay) {
+		return false
+	}
+	r := false
+	for i := 0; i+len(needle) <= len(hay); i++ {
+		m := true
+		for j := range needle {
+			m = verifAnd(m, hay[i+j] == needle[j])
+		}
+		r = verifOr(r, m)
+	}
+	return r
 }
